@@ -218,6 +218,7 @@ func runC07(w *World) *Result {
 	c07Decl(w, cf, r)
 	c07Place(w, cf, r)
 	c07Public(w, cf, r, "R-C07-public")
+	c07Predicate(w, r, "R-C07-public")
 	return r
 }
 
@@ -1078,6 +1079,7 @@ func runC09(w *World) *Result {
 	c09Merge(w, r)
 	c09Prefix(w, r)
 	c07Public(w, cf, r, "R-C09-public")
+	c07Predicate(w, r, "R-C09-public")
 	return r
 }
 
@@ -1333,6 +1335,66 @@ func c09Merge(w *World, r *Result) {
 	if n == 0 {
 		r.Bad(rule, "merge:none", "-", "no membership test found in the parser")
 	}
+	c09Accumulate(w, r)
+}
+
+// c09Accumulate: a map entry extended inside a loop (m[k] = append(base, e) with k fixed
+// for the loop) must extend the entry's current value: a base taken before the loop makes
+// every iteration overwrite the previous one, so only the last added element survives.
+func c09Accumulate(w *World, r *Result) {
+	rule := "R-C09-merge"
+	for _, fn := range w.Funcs("parser") {
+		var loops map[*ssa.BasicBlock]*ssa.BasicBlock
+		perFn := 0
+		for _, b := range fn.Blocks {
+			for _, ins := range b.Instrs {
+				mu, ok := ins.(*ssa.MapUpdate)
+				if !ok {
+					continue
+				}
+				c, ok := mu.Value.(*ssa.Call)
+				if !ok {
+					continue
+				}
+				bi, ok := c.Call.Value.(*ssa.Builtin)
+				if !ok || bi.Name() != "append" || len(c.Call.Args) < 1 {
+					continue
+				}
+				if loops == nil {
+					loops = naturalLoops(fn)
+				}
+				hdr := loops[b]
+				if hdr == nil {
+					continue
+				}
+				perFn++
+				key := fmt.Sprintf("accumulate:%s#%d", FuncName(fn), perFn)
+				body := loopBody(hdr)
+				inBody := func(v ssa.Value) bool {
+					i, ok := v.(ssa.Instruction)
+					return ok && i.Block() != nil && body[i.Block()] && !(i.Block() == hdr && isPhi(v))
+				}
+				base := c.Call.Args[0]
+				switch {
+				case inBody(mu.Key):
+					r.Ok(rule, key, w.Pos(mu.Pos()), "the entry's key changes with every iteration")
+				case inBody(base):
+					r.Ok(rule, key, w.Pos(mu.Pos()), "each iteration extends a value read inside the loop")
+				default:
+					if _, isPhi := base.(*ssa.Phi); isPhi {
+						r.Ok(rule, key, w.Pos(mu.Pos()), "the base is carried from the previous iteration")
+					} else {
+						r.Bad(rule, key, w.Pos(mu.Pos()), "inside the loop the map entry is set to append(<value read before the loop>, element): each iteration overwrites the previous one, so of several missing call edges only the last is recorded and the functions behind the others are removed as unused")
+					}
+				}
+			}
+		}
+	}
+}
+
+func isPhi(v ssa.Value) bool {
+	_, ok := v.(*ssa.Phi)
+	return ok
 }
 
 func c09Prefix(w *World, r *Result) {
@@ -1667,4 +1729,188 @@ func identOrigin(w *World, cf *ctxFacts, fn *ssa.Function, v ssa.Value, depth in
 		return true, fmt.Sprintf("parameter: looked-up / declared at all %d call sites", cnt)
 	}
 	return false, fmt.Sprintf("cannot show that the stored variable is the looked-up definition (%T)", v)
+}
+
+// c07Predicate: what Public() reports is the result of one predicate over the definition's
+// source name, and that predicate is "the first character is an upper-case letter":
+// every return is the constant false (empty name) or the un-negated result of
+// unicode.IsUpper applied to the first rune of the name.
+func c07Predicate(w *World, r *Result, rule string) {
+	fns := w.Funcs("parser")
+	// fields returned by methods called Public
+	fields := map[*types.Var]string{}
+	for _, fn := range fns {
+		if fn.Name() != "Public" || fn.Signature.Recv() == nil || len(fn.Blocks) == 0 {
+			continue
+		}
+		for _, b := range fn.Blocks {
+			ret, ok := b.Instrs[len(b.Instrs)-1].(*ssa.Return)
+			if !ok || len(ret.Results) != 1 {
+				continue
+			}
+			switch x := ret.Results[0].(type) {
+			case *ssa.Field:
+				if st, ok := x.X.Type().Underlying().(*types.Struct); ok {
+					fields[st.Field(x.Field)] = FuncName(fn)
+				}
+			case *ssa.UnOp:
+				if fa, ok := x.X.(*ssa.FieldAddr); ok {
+					if pt, ok := fa.X.Type().Underlying().(*types.Pointer); ok {
+						if st, ok := pt.Elem().Underlying().(*types.Struct); ok {
+							fields[st.Field(fa.Field)] = FuncName(fn)
+						}
+					}
+				}
+			}
+		}
+	}
+	if len(fields) == 0 {
+		r.Bad(rule, "public:predicate:fields", "-", "no Public() accessor returning a field found in the parser")
+		return
+	}
+	preds := map[*ssa.Function][]string{}
+	var unknown []string
+	var trace func(v ssa.Value, site string, depth int)
+	trace = func(v ssa.Value, site string, depth int) {
+		if depth > 4 {
+			unknown = append(unknown, site)
+			return
+		}
+		switch x := v.(type) {
+		case *ssa.Const:
+		case *ssa.Phi:
+			for _, e := range x.Edges {
+				trace(e, site, depth+1)
+			}
+		case *ssa.Parameter:
+			idx := -1
+			for i, p := range x.Parent().Params {
+				if p == x {
+					idx = i
+				}
+			}
+			for _, fn := range fns {
+				for _, b := range fn.Blocks {
+					for _, ins := range b.Instrs {
+						if c, ok := ins.(ssa.CallInstruction); ok && c.Common().StaticCallee() == x.Parent() && idx < len(c.Common().Args) {
+							trace(c.Common().Args[idx], w.Pos(c.Pos()), depth+1)
+						}
+					}
+				}
+			}
+		case *ssa.Call:
+			callee := x.Call.StaticCallee()
+			if callee != nil && callee.Name() == "Public" {
+				return // copied from another definition
+			}
+			if callee != nil && len(callee.Blocks) > 0 && w.IsProduct(pkgOf(callee)) {
+				preds[callee] = append(preds[callee], site)
+				return
+			}
+			unknown = append(unknown, site)
+		case *ssa.Field, *ssa.UnOp:
+			// copy of a definition's flag
+		default:
+			unknown = append(unknown, site)
+		}
+	}
+	for _, fn := range fns {
+		for _, b := range fn.Blocks {
+			for _, ins := range b.Instrs {
+				st, ok := ins.(*ssa.Store)
+				if !ok {
+					continue
+				}
+				fa, ok := st.Addr.(*ssa.FieldAddr)
+				if !ok {
+					continue
+				}
+				pt, ok := fa.X.Type().Underlying().(*types.Pointer)
+				if !ok {
+					continue
+				}
+				stt, ok := pt.Elem().Underlying().(*types.Struct)
+				if !ok {
+					continue
+				}
+				if _, ok := fields[stt.Field(fa.Field)]; ok {
+					trace(st.Val, w.Pos(st.Pos()), 0)
+				}
+			}
+		}
+	}
+	for _, u := range uniq(unknown) {
+		r.Bad(rule, "public:predicate:source@"+u, u, "the public flag of a definition is set from a value that is neither a constant, a copy of another definition's flag nor the result of the name predicate")
+	}
+	if len(preds) == 0 {
+		r.Bad(rule, "public:predicate:none", "-", "no predicate over the name feeds the public flag")
+	}
+	for p, sites := range preds {
+		key := "public:predicate:" + FuncName(p)
+		pos := w.Pos(p.Pos())
+		var bad []string
+		nUpper := 0
+		for _, b := range p.Blocks {
+			ret, ok := b.Instrs[len(b.Instrs)-1].(*ssa.Return)
+			if !ok || len(ret.Results) != 1 {
+				continue
+			}
+			switch x := ret.Results[0].(type) {
+			case *ssa.Const:
+				if x.Value != nil && x.Value.String() == "true" {
+					bad = append(bad, "returns the constant true")
+				}
+			case *ssa.Call:
+				callee := x.Call.StaticCallee()
+				if callee == nil || callee.Pkg == nil || callee.Pkg.Pkg.Path() != "unicode" || callee.Name() != "IsUpper" || len(x.Call.Args) != 1 {
+					bad = append(bad, "returns the result of "+x.Call.String()+" instead of unicode.IsUpper on the first rune")
+					continue
+				}
+				if !firstRuneOfParam(x.Call.Args[0], p) {
+					bad = append(bad, "unicode.IsUpper is applied to "+x.Call.Args[0].String()+", which is not the first rune of the name")
+					continue
+				}
+				nUpper++
+			default:
+				bad = append(bad, fmt.Sprintf("returns %s (%T): not the un-negated result of unicode.IsUpper on the first rune", ret.Results[0].String(), ret.Results[0]))
+			}
+		}
+		if nUpper == 0 && len(bad) == 0 {
+			bad = append(bad, "never returns unicode.IsUpper of the first rune")
+		}
+		if len(bad) == 0 {
+			r.Ok(rule, key, pos, fmt.Sprintf("public iff the first rune of the name is upper case (false for the empty name); feeds the flag at %s", strings.Join(uniq(sites), ", ")))
+		} else {
+			r.Bad(rule, key, pos, "the visibility predicate "+FuncName(p)+" "+strings.Join(bad, "; ")+": names that do not start with an upper-case letter (_x, digits, caseless scripts) become importable, or upper-case ones stop being so")
+		}
+	}
+}
+
+// firstRuneOfParam: v is []rune(param)[0] or the rune result of utf8.DecodeRuneInString(param).
+func firstRuneOfParam(v ssa.Value, fn *ssa.Function) bool {
+	isParam := func(x ssa.Value) bool {
+		p, ok := x.(*ssa.Parameter)
+		return ok && p.Parent() == fn
+	}
+	switch x := v.(type) {
+	case *ssa.UnOp:
+		ia, ok := x.X.(*ssa.IndexAddr)
+		if !ok {
+			return false
+		}
+		k, ok := ia.Index.(*ssa.Const)
+		if !ok || k.Value == nil || k.Int64() != 0 {
+			return false
+		}
+		cv, ok := ia.X.(*ssa.Convert)
+		return ok && isParam(cv.X)
+	case *ssa.Extract:
+		c, ok := x.Tuple.(*ssa.Call)
+		if !ok || x.Index != 0 {
+			return false
+		}
+		callee := c.Call.StaticCallee()
+		return callee != nil && callee.Pkg != nil && callee.Pkg.Pkg.Path() == "unicode/utf8" && callee.Name() == "DecodeRuneInString" && len(c.Call.Args) == 1 && isParam(c.Call.Args[0])
+	}
+	return false
 }
